@@ -280,7 +280,7 @@ def write_table(table, filename):
         table.write(filename)
         log.info("Wrote {0}".format(filename))
     except Exception as e:
-        if "Format could not be identified" not in e.message:
+        if "Format could not be identified" not in str(e):
             raise e
         else:
             # extension sans '.'
